@@ -40,6 +40,7 @@ static std::map<const Value*, string> globalNames;
 static std::set<string> stubs;  // functions to leave undefined (harness supplies the body)
 static std::map<string, string> entryAsserts;
 static bool NLX = false;
+static bool HEAPCHK = false, HEAPCHK_ALL = false;
 static std::map<const GlobalVariable*, int> tinfoIds;
 static int nVirtualSites = 0, nIndirectSites = 0;
 
@@ -445,8 +446,13 @@ static void emitFunction(const Function& Fn, raw_ostream& O) {
         else B << "  " << ctype(AT) << " " << slot << "; " << val(&I, &F) << " = (uint8_t*)&" << slot << ";\n";
         continue;
       }
-      if (isa<LoadInst>(&I)) { def("*(" + ctype(T) + "*)" + op(0)); continue; }
+      if (isa<LoadInst>(&I)) {
+        if (HEAPCHK && (HEAPCHK_ALL || T->isIntegerTy(8))) B << "  ll2c_chk(" << op(0) << ", " << DL->getTypeStoreSize(T).getFixedSize() << ");\n";
+        def("*(" + ctype(T) + "*)" + op(0));
+        continue;
+      }
       if (auto* SI = dyn_cast<StoreInst>(&I)) {
+        if (HEAPCHK && (HEAPCHK_ALL || SI->getValueOperand()->getType()->isIntegerTy(8))) B << "  ll2c_chk(" << op(1) << ", " << DL->getTypeStoreSize(SI->getValueOperand()->getType()).getFixedSize() << ");\n";
         B << "  *(" << ctype(SI->getValueOperand()->getType()) << "*)" << op(1) << " = " << op(0) << ";\n";
         continue;
       }
@@ -603,9 +609,12 @@ static void emitFunction(const Function& Fn, raw_ostream& O) {
             case Intrinsic::lifetime_start: case Intrinsic::lifetime_end: case Intrinsic::dbg_declare: case Intrinsic::dbg_value:
             case Intrinsic::experimental_noalias_scope_decl: case Intrinsic::assume: case Intrinsic::donothing:
               finishInvoke(); continue;
-            case Intrinsic::memcpy: B << "  memcpy(" << arg(0) << "," << arg(1) << "," << arg(2) << ");\n"; continue;
-            case Intrinsic::memmove: B << "  memmove(" << arg(0) << "," << arg(1) << "," << arg(2) << ");\n"; continue;
-            case Intrinsic::memset: B << "  memset(" << arg(0) << "," << arg(1) << "," << arg(2) << ");\n"; continue;
+            case Intrinsic::memcpy: case Intrinsic::memmove:
+              if (HEAPCHK) B << "  ll2c_chk(" << arg(0) << ", " << arg(2) << "); ll2c_chk(" << arg(1) << ", " << arg(2) << ");\n";
+              B << "  " << (Callee->getIntrinsicID() == Intrinsic::memcpy ? "memcpy(" : "memmove(") << arg(0) << "," << arg(1) << "," << arg(2) << ");\n"; continue;
+            case Intrinsic::memset:
+              if (HEAPCHK) B << "  ll2c_chk(" << arg(0) << ", " << arg(2) << ");\n";
+              B << "  memset(" << arg(0) << "," << arg(1) << "," << arg(2) << ");\n"; continue;
             case Intrinsic::vastart: B << "  va_start(*(va_list*)" << arg(0) << ", " << val(lastNamedParam, &F) << ");\n"; continue;
             case Intrinsic::vaend: B << "  va_end(*(va_list*)" << arg(0) << ");\n"; continue;
             case Intrinsic::vacopy: B << "  va_copy(*(va_list*)" << arg(0) << ", *(va_list*)" << arg(1) << ");\n"; continue;
@@ -766,6 +775,8 @@ int main(int argc, char** argv) {
     else if (a == "--header" && i + 1 < argc) header = argv[++i];
     else if (a == "--stub" && i + 1 < argc) stubs.insert(argv[++i]);
     else if (a == "--nlx") NLX = true;
+    else if (a == "--heapcheck") HEAPCHK = true;
+    else if (a == "--heapcheck-all") HEAPCHK = HEAPCHK_ALL = true;
     else if (a == "--entry-assert" && i + 1 < argc) { string s = argv[++i]; auto p = s.find('='); entryAsserts[s.substr(0, p)] = s.substr(p + 1); }
     else in = a;
   }
